@@ -20,12 +20,15 @@ One output line per input line.
   rows_c01d               → falsifying rows of the wrapper-delegation theorems
                             (`<theorem>: <row> … @ file:line`), or `none`
   rows_c13api             → culprits of `vec_api_covered`: uncovered fns / bad entries / stale entries, or `none`
+  rows_c17s               → falsifying rows of the C17 surface theorems (`<theorem>: … @ file:line`)
+  expr_macros             → `;`-separated names of the exported macros that take an expression
   selfcheck               → 1 iff every generated key is the key of its string
 -/
 import HipVerif.Model.AutoTraitRows
 import HipVerif.Model.PubFns
 import HipVerif.Model.Doors
 import HipVerif.Model.Delegates
+import HipVerif.Model.Surface
 import HipVerif.Model.VecApi
 
 open HipVerif.Model.AutoTrait
@@ -184,6 +187,39 @@ def rowsC01d : List String :=
     s!"wrappers_covered: coredrive calls {x.2.2} on a wrapper that has no such row"
   a ++ b ++ c ++ d ++ e
 
+def rowsC17s : List String :=
+  let S := HipVerif.Gen.Surface.impls
+  let ov := S.flatMap fun r =>
+    if HipVerif.Model.Surface.overridesOk r then [] else
+      match HipVerif.Model.Surface.required r.traitKey with
+      | none => [s!"no_unreviewed_overrides: impl {r.traitShown} for {r.ty}: trait `{decKey r.traitKey}` has no required-method entry @ {r.loc}"]
+      | some req => (r.methods.filter fun m => !(req.contains m.1 ||
+            HipVerif.Model.Surface.reviewedOverrides.any fun e => e.1 == r.tyKey && e.2.1 == r.traitKey && e.2.2.1 == m.1)).map
+          fun m => s!"no_unreviewed_overrides: impl {r.traitShown} for {r.ty} defines `{m.2}`, which is neither required nor a reviewed override @ {r.loc}"
+  let st := HipVerif.Model.Surface.staleOverrides.map fun e =>
+    s!"no_unreviewed_overrides: reviewed override {decKey e.2.2.1} of {decKey e.2.1} for {decKey e.1} no longer exists"
+  let pr := S.filterMap fun r =>
+    if HipVerif.Model.Surface.pairReviewed r then none else
+      some s!"impl_pairs_reviewed: impl {r.traitShown} for {r.ty} ({repr r.kind}) is not a reviewed (type, trait) pair @ {r.loc}"
+  let mc := HipVerif.Model.Surface.miscountedPairs.map fun e =>
+    let locs := (S.filter fun r => r.tyKey == e.1 && r.traitKey == e.2.1).map (·.loc)
+    s!"impl_pairs_reviewed: {decKey e.2.1} for {decKey e.1}: {HipVerif.Model.Surface.countOf e.1 e.2.1} impl(s) in the source, {e.2.2} reviewed @ {String.intercalate "," locs}"
+  let ui := HipVerif.Gen.Surface.unsafeImpls.filterMap fun u =>
+    if HipVerif.Model.Surface.unsafeImplOk u then none else
+      some s!"unsafe_auto_impls_bound_all_params: unsafe impl {decKey u.traitKey} for {u.ty} {u.shown}: parameters in fields {repr u.fieldParams}, bounds {u.bounds.map fun b => (b.1, decKey b.2)} @ {u.loc}"
+  let uu := HipVerif.Model.Surface.unreviewedUnsafeImpls.map fun u =>
+    s!"unsafe_auto_impls_bound_all_params: unreviewed unsafe impl {decKey u.traitKey} for {u.ty} {u.shown} @ {u.loc}"
+  let us := HipVerif.Model.Surface.staleUnsafeImpls.map fun e =>
+    s!"unsafe_auto_impls_bound_all_params: reviewed unsafe impl {decKey e.2} for {decKey e.1} no longer exists"
+  let mh := HipVerif.Gen.Surface.exportedMacros.filterMap fun m =>
+    if HipVerif.Model.Surface.macroArmOk m then none else
+      some s!"macro_unsafe_hygiene: {m.name}! arm {m.arm} expands {m.inUnsafe} inside an unsafe block @ {m.loc}"
+  let gu := HipVerif.Model.Surface.unexpectedGuards.map fun g =>
+    s!"const_param_guards_exact: unexpected guard `{g.cond}` in {g.owner} @ {g.loc}"
+  let gm := HipVerif.Model.Surface.missingGuards.map fun e =>
+    s!"const_param_guards_exact: expected guard `{decKey e.2.2}` of {decKey e.2.1} is missing"
+  ov ++ st ++ pr ++ mc ++ ui ++ uu ++ us ++ mh ++ gu ++ gm
+
 def tiedAnswer (name : String) : String :=
   match HipVerif.Gen.PubFns.pubFns.find? (fun f => f.name == name) with
   | none => "err"
@@ -205,6 +241,8 @@ def answer (line : String) : String :=
   | ["rows_c05"] => join rowsC05
   | ["rows_c17"] => join rowsC17
   | ["rows_c06"] => join rowsC06
+  | ["rows_c17s"] => join rowsC17s
+  | ["expr_macros"] => String.intercalate ";" HipVerif.Model.Surface.exprMacros
   | ["rows_c01d"] => join rowsC01d
   | ["rows_c13api"] =>
     join ((HipVerif.Model.VecApi.uncoveredFns.map fun n => s!"vec_api_covered: uncovered fn {n}") ++
@@ -224,7 +262,7 @@ def answer (line : String) : String :=
     | some f => if borrowViewFns.contains f.simpleKey || neverBorrowed.contains f.key then "1" else "0"
   | ["selfcheck"] =>
     if keysOk HipVerif.Gen.PubFns.pubFns HipVerif.Gen.PubFns.sites && HipVerif.Model.Doors.doorKeysOk &&
-        HipVerif.Model.Delegates.delegateKeysOk
+        HipVerif.Model.Delegates.delegateKeysOk && HipVerif.Model.Surface.surfaceKeysOk
     then "1" else "0"
   | _ => "err"
 
